@@ -433,12 +433,14 @@ func vfC10Run(t *testing.T, cs vfC10Case, out *vfC10Out, isKnown func(string) bo
 		// own-join keys of attempts whose subscribe was still in flight when an unsubscribe was issued: the woken
 		// unsubscribe and the subscriber's join publishing then run concurrently (only the Go scheduler orders them)
 		racedJoin := map[string]bool{}
+		var asyncDone func()
 		var prodMu sync.Mutex // operation goroutines of the subject can finish concurrently
 		setProd := func(k string, p *vfC10Prod) {
 			prodMu.Lock()
 			prods[k] = p
 			prodMu.Unlock()
 		}
+		_ = setProd
 		// With per-channel batching the moment a push is handed to the connection's queue is the channel writer's
 		// flush, not the producing operation: record it by wrapping the (unexported) flush function.
 		var flushMu sync.Mutex
@@ -472,7 +474,24 @@ func vfC10Run(t *testing.T, cs vfC10Case, out *vfC10Out, isKnown func(string) bo
 		var srvSubDone, srvUnsubDone []int64 // completion marks of server-side ops that enqueue a push, in order
 		var srvUnsubIssue []int64            // issue marks of the same server-side unsubscribes (0 completion = unknown)
 		unsubByServer := false
+		liveTag := func() int { // tag (ChannelInfo) of the subscription currently in c.channels, -1 if none
+			conn.Client.mu.RLock()
+			defer conn.Client.mu.RUnlock()
+			if cc, ok := conn.Client.channels[ch]; ok {
+				return vfC10Tag(cc.info)
+			}
+			return -1
+		}
+		pendingAsyncLeave := "" // own-leave key of an insufficient-state unsubscribe that has not completed yet
 		unsubGateParked := func() bool { return w.Gates.Waiting("prem") > 0 || w.Gates.Waiting("pleave") > 0 }
+		asyncDone = func() {
+			// the old subscription's leave, published by the insufficient-state unsubscribe, can reach the subject itself when
+			// a re-subscription was accepted meanwhile: it was produced by the time that unsubscribe left its gate
+			if pendingAsyncLeave != "" && !unsubGateParked() {
+				setProd(pendingAsyncLeave, &vfC10Prod{kind: "leave", phase: vfC10PhEst, endSeq: mark()})
+				pendingAsyncLeave = ""
+			}
+		}
 		dropNext := false
 		w.broker.Fault = func(d vfDelivery) vfFault {
 			if dropNext && d.Kind == "pub" {
@@ -759,7 +778,7 @@ func vfC10Run(t *testing.T, cs vfC10Case, out *vfC10Out, isKnown func(string) bo
 				unsubByServer = s.ByServer || cs.Uni
 				if s.ByServer || cs.Uni {
 					issued := mark()
-					ownLeave := fmt.Sprintf("leave:%d", curTag.Load())
+					ownLeave := fmt.Sprintf("leave:%d", liveTag())
 					conn.Client.mu.RLock()
 					_, had := conn.Client.channels[ch] // subscribed or reserved by a subscribe in flight: a push will be sent
 					conn.Client.mu.RUnlock()
@@ -802,6 +821,7 @@ func vfC10Run(t *testing.T, cs vfC10Case, out *vfC10Out, isKnown func(string) bo
 					}
 				}
 				vfSettle()
+				asyncDone()
 				if !parked() {
 					parkedSince = time.Time{}
 				}
@@ -822,6 +842,7 @@ func vfC10Run(t *testing.T, cs vfC10Case, out *vfC10Out, isKnown func(string) bo
 					gates = []string{"pleave"}
 				}
 				lag := w.Gates.Waiting("push") > 0
+				pendingAsyncLeave = fmt.Sprintf("leave:%d", liveTag())
 				for i := 0; i < 2; i++ {
 					pubN++
 					dropNext = i == 0
@@ -838,6 +859,7 @@ func vfC10Run(t *testing.T, cs vfC10Case, out *vfC10Out, isKnown func(string) bo
 				}
 				out.labels = append(out.labels, "insufficient_state_unsubscribe")
 				afterLaunch(gates...)
+				asyncDone()
 			case vfC10RelPush:
 				w.Gates.Disarm("push")
 				for w.Gates.Release("push") {
@@ -863,6 +885,7 @@ func vfC10Run(t *testing.T, cs vfC10Case, out *vfC10Out, isKnown func(string) bo
 		// drain: release everything, let batch timers fire, then the drawn connection end
 		w.Gates.ReleaseAll()
 		vfSettle()
+		asyncDone()
 		time.Sleep(2 * time.Second)
 		vfSettle()
 		if subBusy.Load() || unsubBusy.Load() || connectBusy.Load() {
